@@ -550,6 +550,7 @@ func Run(c *ev.Ctx) {
 	// an instance re-registered in place under another non-typical kind (same family of upstream behaviour)
 	rekindOp1 := cmdlib.RegService(n1, cmdlib.SvcSpec{ID: "tgw", Name: "tgw", Kind: structs.ServiceKindIngressGateway, Port: 8443})
 	rekindOp2 := cmdlib.RegService(n1, cmdlib.SvcSpec{ID: "web-proxy-1", Name: "web-proxy", Kind: structs.ServiceKindMeshGateway, Port: 21000})
+	failing := cmdlib.KVSpec{Verb: api.KVGet, Key: "never-written"}.TxnOp()
 	alpha := []world.Op{
 		cmdlib.RegNode(n1), cmdlib.RegNode(n2), cmdlib.RegNode(n1b),
 		cmdlib.RegService(n1, web), cmdlib.RegService(n2, web2), cmdlib.RegService(n1, web3),
@@ -571,6 +572,12 @@ func Run(c *ev.Ctx) {
 		cmdlib.Txn(cmdlib.TxnService(api.ServiceSet, "n2", proxy2, 0)),
 		cmdlib.Txn(cmdlib.TxnNode(api.NodeDelete, n2, 0)),
 		cmdlib.Txn(cmdlib.TxnService(api.ServiceDelete, "n2", web2, 0), cmdlib.TxnService(api.ServiceSet, "n1", web3, 0)),
+		// transactions that are rolled back by their last operation (a read of a key that never exists): whatever the
+		// earlier operations did to base or derived rows - also to objects the tables share - must be gone
+		cmdlib.Txn(cmdlib.TxnService(api.ServiceDelete, "n1", proxy1, 0), failing),
+		cmdlib.Txn(cmdlib.TxnService(api.ServiceSet, "n1", proxy1b, 0), failing),
+		cmdlib.Txn(cmdlib.TxnNode(api.NodeDelete, n2, 0), failing),
+		cmdlib.Txn(cmdlib.TxnService(api.ServiceDelete, "n1", web, 0), cmdlib.TxnService(api.ServiceDelete, "n1", tgw, 0), failing),
 		cmdlib.RegService(n1p, cmdlib.SvcSpec{Name: "web", Port: 80}), cmdlib.RegService(n1p, cmdlib.SvcSpec{ID: "web-2", Name: "web", Port: 80}),
 		cmdlib.DeregService("n1", "web", "p1"), cmdlib.DeregNode("n1", "p1"),
 		// an instance ID re-registered under another service name / a proxy re-pointed to another destination
